@@ -189,8 +189,10 @@ pub fn mask_msg(msg: &str) -> String {
         }
         out.push(c);
     }
-    let out: String = out.chars().take(90).collect();
-    out.trim().to_string()
+    // identifiers that come from the input (element names, block types) vary with the case: keep only
+    // the first words of the message, which name the failed operation
+    let words: Vec<&str> = out.split_whitespace().take(4).collect();
+    words.join(" ")
 }
 
 thread_local! {
